@@ -977,7 +977,10 @@ def suite_conc(binf, tier, rng):
     if tier != "quick":
         names = list(ops)
         mut = lambda n: isinstance(ops[n], list) or ops[n]["op"] in ("write", "write_hash", "remove", "remove_hash")
-        pairs += [(a, b) for a in names for b in names if (a, b) not in pairs and (mut(a) or mut(b))]
+        # a list of several whole operations is one process doing them one after the other: it may only be the side that
+        # runs to completion (B); parked in the middle (A) it is not ONE operation and "A;B or B;A" is not its specification
+        seq_only_b = {"write k B; remove k; write k C"}
+        pairs += [(a, b) for a in names for b in names if (a, b) not in pairs and (mut(a) or mut(b)) and a not in seq_only_b]
     states = [("cold", [])] if tier == "quick" else [("cold", []), ("warm", warm)]
     if tier == "quick":
         states.append(("warm", warm)); pairs_for = {"cold": pairs[:6] + [("write k B", "list")] + pairs[-2:], "warm": pairs[:-2]}
